@@ -22,6 +22,8 @@ READ_DESIGNS = {
     "two-blocks": lambda k: [tuple(range(0, 2)), tuple(range(2, k))],
     "interleaved": lambda k: [(0, 2), (1, 3)] + ([(0, 4)] if k > 4 else []),
     "block+singleton": lambda k: [tuple(range(0, k - 1))],
+    # no read covers two variants: the target has reads but none is phase-informative
+    "singletons": lambda k: [(i,) for i in range(k)],
 }
 
 
@@ -43,7 +45,14 @@ def base_scenarios(tier):
         for design, fn in READ_DESIGNS.items():
             if design == "interleaved" and k < 4:
                 continue
-            for hp in [p for p in itertools.product((0, 1), repeat=k) if p[0] == 0][:: (1 if (T or k <= 4) else 3)]:
+            hps = [p for p in itertools.product((0, 1), repeat=k) if p[0] == 0][:: (1 if (T or k <= 4) else 3)]
+            if design == "singletons":
+                hps = hps[:2] if not T else hps[:4]
+            for hp in hps:
+                if design == "one-block" and k <= 4:
+                    # all reads belong to the OTHER sample: the target is processed without any read of its own
+                    for pre in ("none", "foreignPS", "foreignHP"):
+                        yield {"k": k, "design": design, "hp": list(hp), "nsamp": 2, "pre": pre, "seed": seed, "reads_for": "S2"}
                 for nsamp in (1, 2):
                     for pre in ("none", "gt10", "foreignPS", "foreignHP"):
                         if not T and nsamp == 2 and pre in ("gt10",) and k == 5:
@@ -118,7 +127,7 @@ def build_base(sc, d):
                 q += qq
                 cig += cc
                 prev_end = e
-            alns.append({"name": f"r{n}", "chrom": "chrA", "start": start0, "cigar": cig, "seq": q, "rg": "rg_S1"})
+            alns.append({"name": f"r{n}", "chrom": "chrA", "start": start0, "cigar": cig, "seq": q, "rg": "rg_" + sc.get("reads_for", "S1")})
     bam = os.path.join(d, "reads.bam")
     synth.write_bam(bam, [("chrA", length)], alns, read_groups=[{"ID": "rg_S1", "SM": "S1"}, {"ID": "rg_S2", "SM": "S2"}])
     return {"vcf": vcf_path, "fasta": fasta, "bam": bam, "pos": pos, "haps": haps}
